@@ -96,7 +96,7 @@ def tailEvs (p : Bytes) (cur : Node) (pre k' : List Tok) (nm : Bytes) (parent : 
 
 def P1 (p : Bytes) (cur : Node) (pre k : List Tok) (parent : Option Node) (cm pc : Nat) (R : Regs) : Prop :=
   WalkInv cur pre k cm pc R →
-  keyLoop p cur pre k parent cm pc R =
+  keyLoop false p cur pre k parent cm pc R =
     pickC R.tsr (walk cur pre k (parentLeafRoute parent) (endsWithSlash p) (p.drop cm) R.params
       ++ stackEvs (endsWithSlash p) p R.params R.skipNds)
 
@@ -105,29 +105,29 @@ def P2 (p : Bytes) (cur : Node) (pre k' : List Tok) (nm : Bytes) (parent : Optio
   wfNode inode = true → stackOk R.params.length R.skipNds → startPath ≤ cm →
   (cm ≠ startPath → ((p.drop startPath).take (cm - startPath)).getLast? = some SLASH) →
   ((p.drop startPath).head? = some SLASH → cm = startPath ∧ p.drop cm ≠ []) →
-  infixLoop p cur pre k' nm parent inode startPath cm R =
+  infixLoop false p cur pre k' nm parent inode startPath cm R =
     pickC R.tsr (infixEvs inode nm (endsWithSlash p) p startPath cm R.params
       ++ (tailEvs p cur pre k' nm parent startPath cm R.params ++ stackEvs (endsWithSlash p) p R.params R.skipNds))
 
 def P3 (p : Bytes) (cur : Node) (pre k' : List Tok) (nm : Bytes) (parent : Option Node)
     (startPath cm : Nat) (R : Regs) : Prop :=
   stackOk R.params.length R.skipNds →
-  infixTail p cur pre k' nm parent startPath cm R =
+  infixTail false p cur pre k' nm parent startPath cm R =
     pickC R.tsr (tailEvs p cur pre k' nm parent startPath cm R.params ++ stackEvs (endsWithSlash p) p R.params R.skipNds)
 
 def P4 (p : Bytes) (cur : Node) (pre k : List Tok) (parent : Option Node) (cm : Nat) (R : Regs) : Prop :=
   stackOk R.params.length R.skipNds →
-  afterLoop p cur pre k parent cm R =
+  afterLoop false p cur pre k parent cm R =
     pickC R.tsr (postEvs p cur pre k parent cm R.params ++ stackEvs (endsWithSlash p) p R.params R.skipNds)
 
 def P5 (p : Bytes) (R : Regs) : Prop :=
   stackOk R.params.length R.skipNds →
-  backtrack p R = pickC R.tsr (stackEvs (endsWithSlash p) p R.params R.skipNds)
+  backtrack false p R = pickC R.tsr (stackEvs (endsWithSlash p) p R.params R.skipNds)
 
 def P6 (p : Bytes) (cur : Node) (pre : List Tok) (parent : Option Node) (cm pc : Nat) (b : UInt8) (rest : Bytes)
     (R : Regs) : Prop :=
   WalkInv cur pre [] cm pc R → p.drop cm = b :: rest →
-  nodeEnd p cur pre parent cm pc b rest R =
+  nodeEnd false p cur pre parent cm pc b rest R =
     pickC R.tsr (walk cur pre [] (parentLeafRoute parent) (endsWithSlash p) (b :: rest) R.params
       ++ stackEvs (endsWithSlash p) p R.params R.skipNds)
 
@@ -139,29 +139,29 @@ open Fox Fox.Model.Machine
 /-! ### unfolding the machine, one control-flow edge per lemma -/
 
 theorem keyLoop_end {p : Bytes} {cm : Nat} (hp : p.drop cm = []) (cur pre k parent pc R) :
-    keyLoop p cur pre k parent cm pc R = afterLoop p cur pre k parent cm R := by
+    keyLoop false p cur pre k parent cm pc R = afterLoop false p cur pre k parent cm R := by
   rw [keyLoop]; split
   · rfl
   · rename_i b rest h; rw [hp] at h; cases h
 
 theorem keyLoop_keyEnd {p : Bytes} {cm : Nat} {b : UInt8} {rest : Bytes} (hp : p.drop cm = b :: rest) (cur pre parent pc R) :
-    keyLoop p cur pre [] parent cm pc R = nodeEnd p cur pre parent cm pc b rest R := by
+    keyLoop false p cur pre [] parent cm pc R = nodeEnd false p cur pre parent cm pc b rest R := by
   rw [keyLoop]; split
   · rename_i h; rw [hp] at h; cases h
   · rename_i b' rest' h; rw [hp] at h; cases h; rfl
 
 theorem keyLoop_lit {p : Bytes} {cm : Nat} {b : UInt8} {rest : Bytes} (hp : p.drop cm = b :: rest) (cur pre c k' parent pc R) :
-    keyLoop p cur pre (.lit c :: k') parent cm pc R =
-      if c = b ∧ b ≠ LBR ∧ b ≠ STAR then keyLoop p cur (pre ++ [.lit c]) k' parent (cm + 1) pc R
-      else afterLoop p cur pre (.lit c :: k') parent cm R := by
+    keyLoop false p cur pre (.lit c :: k') parent cm pc R =
+      if c = b ∧ b ≠ LBR ∧ b ≠ STAR then keyLoop false p cur (pre ++ [.lit c]) k' parent (cm + 1) pc R
+      else afterLoop false p cur pre (.lit c :: k') parent cm R := by
   rw [keyLoop]; split
   · rename_i h; rw [hp] at h; cases h
   · rename_i b' rest' h; rw [hp] at h; cases h; rfl
 
 theorem keyLoop_param {p : Bytes} {cm : Nat} {b : UInt8} {rest : Bytes} (hp : p.drop cm = b :: rest) (cur pre nm k' parent pc R) :
-    keyLoop p cur pre (.param nm :: k') parent cm pc R =
-      if segEnd SLASH (b :: rest) = 0 then afterLoop p cur pre (.param nm :: k') parent cm R
-      else keyLoop p cur (pre ++ [.param nm]) k' parent (cm + segEnd SLASH (b :: rest)) (pc + 1)
+    keyLoop false p cur pre (.param nm :: k') parent cm pc R =
+      if segEnd SLASH (b :: rest) = 0 then afterLoop false p cur pre (.param nm :: k') parent cm R
+      else keyLoop false p cur (pre ++ [.param nm]) k' parent (cm + segEnd SLASH (b :: rest)) (pc + 1)
           { R with params := R.params ++ [(nm, (b :: rest).take (segEnd SLASH (b :: rest)))] } := by
   rw [keyLoop]; split
   · rename_i h; rw [hp] at h; cases h
@@ -169,33 +169,33 @@ theorem keyLoop_param {p : Bytes} {cm : Nat} {b : UInt8} {rest : Bytes} (hp : p.
 
 theorem keyLoop_catch_leaf {p : Bytes} {cm : Nat} {b : UInt8} {rest : Bytes} (hp : p.drop cm = b :: rest) {cur : Node}
     (hcs : cur.children = []) (pre nm parent pc R) :
-    keyLoop p cur pre [.catchAll nm] parent cm pc R = ret cur.route (R.params ++ [(nm, b :: rest)]) := by
+    keyLoop false p cur pre [.catchAll nm] parent cm pc R = ret cur.route (R.params ++ [(nm, b :: rest)]) := by
   rw [keyLoop]; split
   · rename_i h; rw [hp] at h; cases h
-  · rename_i b' rest' h; rw [hp] at h; cases h; simp only [hcs]
+  · rename_i b' rest' h; rw [hp] at h; cases h; simp only [hcs]; rfl
 
 theorem keyLoop_catch_child {p : Bytes} {cm : Nat} {b : UInt8} {rest : Bytes} (hp : p.drop cm = b :: rest) {cur c : Node}
     {tail : List Node} (hcs : cur.children = c :: tail) (pre nm parent pc R) :
-    keyLoop p cur pre [.catchAll nm] parent cm pc R = infixLoop p cur (pre ++ [.catchAll nm]) [] nm parent c cm cm R := by
+    keyLoop false p cur pre [.catchAll nm] parent cm pc R = infixLoop false p cur (pre ++ [.catchAll nm]) [] nm parent c cm cm R := by
   rw [keyLoop]; split
   · rename_i h; rw [hp] at h; cases h
   · rename_i b' rest' h; rw [hp] at h; cases h; simp only [hcs]
 
 theorem keyLoop_catch_infix {p : Bytes} {cm : Nat} {b : UInt8} {rest : Bytes} (hp : p.drop cm = b :: rest)
     (cur pre nm t k'' parent pc R) :
-    keyLoop p cur pre (.catchAll nm :: t :: k'') parent cm pc R =
-      infixLoop p cur (pre ++ [.catchAll nm]) (t :: k'') nm parent (.mk (t :: k'') cur.route cur.children) cm cm R := by
+    keyLoop false p cur pre (.catchAll nm :: t :: k'') parent cm pc R =
+      infixLoop false p cur (pre ++ [.catchAll nm]) (t :: k'') nm parent (.mk (t :: k'') cur.route cur.children) cm cm R := by
   rw [keyLoop]; split
   · rename_i h; rw [hp] at h; cases h
   · rfl
 
 theorem afterLoop_eq (p cur pre k parent cm R) :
-    afterLoop p cur pre k parent cm R =
+    afterLoop false p cur pre k parent cm R =
       if cur.isLeaf && (p.drop cm).isEmpty && k.isEmpty then ret cur.route R.params
-      else backtrack p (postTsr p cur pre k parent cm R) := by
+      else backtrack false p (postTsr p cur pre k parent cm R) := by
   rw [afterLoop]
 
-theorem backtrack_nil {R : Regs} (h : R.skipNds = []) (p) : backtrack p R = fin R.tsr := by
+theorem backtrack_nil {R : Regs} (h : R.skipNds = []) (p) : backtrack false p R = fin R.tsr := by
   rw [backtrack]; split
   · cases ht : R.tsr with
     | none => rfl
@@ -203,55 +203,55 @@ theorem backtrack_nil {R : Regs} (h : R.skipNds = []) (p) : backtrack p R = fin 
   · rename_i f st h'; rw [h] at h'; cases h'
 
 theorem backtrack_cons {R : Regs} {f : Frame} {st : List Frame} (h : R.skipNds = f :: st) (p) :
-    backtrack p R = keyLoop p f.child [] f.child.key (some f.n) f.pathIndex f.paramCnt
+    backtrack false p R = keyLoop false p f.child [] f.child.key (some f.n) f.pathIndex f.paramCnt
       { R with skipNds := st, params := R.params.take f.paramCnt } := by
   rw [backtrack]; split
   · rename_i h'; rw [h] at h'; cases h'
   · rename_i f' st' h'; rw [h] at h'; cases h'; rfl
 
 theorem infixTail_eq (p cur pre k' nm parent startPath cm R) :
-    infixTail p cur pre k' nm parent startPath cm R =
+    infixTail false p cur pre k' nm parent startPath cm R =
       if k' = [] then ret cur.route (R.params ++ [(nm, p.drop startPath)])
       else if (p.drop startPath).head? = some SLASH then
-        afterLoop p cur pre k' parent cm { R with params := R.params ++ [(nm, p.drop startPath)] }
-      else afterLoop p cur pre k' parent p.length { R with params := R.params ++ [(nm, p.drop startPath)] } := by
-  rw [infixTail]
+        afterLoop false p cur pre k' parent cm { R with params := R.params ++ [(nm, p.drop startPath)] }
+      else afterLoop false p cur pre k' parent p.length { R with params := R.params ++ [(nm, p.drop startPath)] } := by
+  rw [infixTail]; rfl
 
 theorem infixLoop_end {p : Bytes} {cm : Nat} (hp : p.drop cm = []) (cur pre k' nm parent inode startPath R) :
-    infixLoop p cur pre k' nm parent inode startPath cm R = infixTail p cur pre k' nm parent startPath cm R := by
+    infixLoop false p cur pre k' nm parent inode startPath cm R = infixTail false p cur pre k' nm parent startPath cm R := by
   rw [infixLoop]; split
   · rfl
   · rename_i b rest h; rw [hp] at h; cases h
 
 theorem infixLoop_step {p : Bytes} {cm : Nat} {b : UInt8} {rest : Bytes} (hp : p.drop cm = b :: rest)
     (cur pre k' nm parent inode startPath R) :
-    infixLoop p cur pre k' nm parent inode startPath cm R =
+    infixLoop false p cur pre k' nm parent inode startPath cm R =
       if 0 < segEnd SLASH (b :: rest) ∧ segEnd SLASH (b :: rest) < (b :: rest).length then
-        match keyLoop (p.drop (cm + segEnd SLASH (b :: rest))) inode [] inode.key none 0 0 {} with
-        | .none => infixLoop p cur pre k' nm parent inode startPath (cm + segEnd SLASH (b :: rest) + 1) R
+        match keyLoop false (p.drop (cm + segEnd SLASH (b :: rest))) inode [] inode.key none 0 0 {} with
+        | .none => infixLoop false p cur pre k' nm parent inode startPath (cm + segEnd SLASH (b :: rest) + 1) R
         | .found r sps true =>
-          infixLoop p cur pre k' nm parent inode startPath (cm + segEnd SLASH (b :: rest) + 1)
+          infixLoop false p cur pre k' nm parent inode startPath (cm + segEnd SLASH (b :: rest) + 1)
             (setTsr R (some r) (R.params ++ [(nm, (p.drop startPath).take (cm + segEnd SLASH (b :: rest) - startPath))] ++ sps))
         | .found r sps false =>
           .found r (R.params ++ [(nm, (p.drop startPath).take (cm + segEnd SLASH (b :: rest) - startPath))] ++ sps) false
         | .bad => .bad
-      else infixTail p cur pre k' nm parent startPath cm R := by
+      else infixTail false p cur pre k' nm parent startPath cm R := by
   rw [infixLoop]; split
   · rename_i h; rw [hp] at h; cases h
   · rename_i b' rest' h; rw [hp] at h; cases h; rfl
 
 theorem nodeEnd_eq (p cur pre parent cm pc b rest R) :
-    nodeEnd p cur pre parent cm pc b rest R =
+    nodeEnd false p cur pre parent cm pc b rest R =
       (match staticChild cur b with
        | none =>
          (match paramChild cur with
-          | some pc' => keyLoop p pc' [] pc'.key (some cur) cm pc
+          | some pc' => keyLoop false p pc' [] pc'.key (some cur) cm pc
               { earlyTsr cur cm b rest R with skipNds := pushWild cur cm pc (earlyTsr cur cm b rest R).skipNds }
           | none =>
             (match wildChild cur with
-             | some wc => keyLoop p wc [] wc.key (some cur) cm pc (earlyTsr cur cm b rest R)
-             | none => afterLoop p cur pre [] parent cm (earlyTsr cur cm b rest R)))
-       | some sc => keyLoop p sc [] sc.key (some cur) cm pc
+             | some wc => keyLoop false p wc [] wc.key (some cur) cm pc (earlyTsr cur cm b rest R)
+             | none => afterLoop false p cur pre [] parent cm (earlyTsr cur cm b rest R)))
+       | some sc => keyLoop false p sc [] sc.key (some cur) cm pc
            { earlyTsr cur cm b rest R with
              skipNds := pushParam cur cm pc (pushWild cur cm pc (earlyTsr cur cm b rest R).skipNds) }) := by
   rw [nodeEnd]
@@ -983,7 +983,7 @@ namespace Fox.Model
 open Fox Fox.Model.Machine
 
 theorem sub_lookup {p' : Bytes} {inode : Node} (hw : wfNode inode = true) (ih : P1 p' inode [] inode.key none 0 0 {}) :
-    keyLoop p' inode [] inode.key none 0 0 {} = pickC none (walk inode [] inode.key none (endsWithSlash p') p' []) := by
+    keyLoop false p' inode [] inode.key none 0 0 {} = pickC none (walk inode [] inode.key none (endsWithSlash p') p' []) := by
   have hinv : WalkInv inode [] inode.key 0 0 {} := ⟨hw, rfl, fun h => absurd rfl h, rfl, trivial⟩
   rw [ih hinv]
   simp [stackEvs, parentLeafRoute]
@@ -998,7 +998,7 @@ theorem infix_pick {p : Bytes} {startPath cm : Nat} (hle : startPath ≤ cm) {b 
     (cur pre k' nm parent) (t : Cand) (ps : Binds) (S : List Ev) :
     pickC t (infixEvs inode nm (endsWithSlash p) p startPath cm ps
         ++ (tailEvs p cur pre k' nm parent startPath cm ps ++ S)) =
-      (match keyLoop (p.drop (cm + segEnd SLASH (b :: rest))) inode [] inode.key none 0 0 {} with
+      (match keyLoop false (p.drop (cm + segEnd SLASH (b :: rest))) inode [] inode.key none 0 0 {} with
        | .none =>
          pickC t (infixEvs inode nm (endsWithSlash p) p startPath (cm + segEnd SLASH (b :: rest) + 1) ps
            ++ (tailEvs p cur pre k' nm parent startPath (cm + segEnd SLASH (b :: rest) + 1) ps ++ S))
@@ -1020,7 +1020,7 @@ theorem infix_pick {p : Bytes} {startPath cm : Nat} (hle : startPath ≤ cm) {b 
     omega
   rw [hstep, List.append_assoc, pickC_append, walk_prefix, pick_map_pre, ← endsWithSlash_drop hne, ← sub_lookup hw ih,
     tailEvs_cm_irrel hnh cur pre k' nm parent cm (cm + segEnd SLASH (b :: rest) + 1)]
-  cases keyLoop (p.drop (cm + segEnd SLASH (b :: rest))) inode [] inode.key none 0 0 {} with
+  cases keyLoop false (p.drop (cm + segEnd SLASH (b :: rest))) inode [] inode.key none 0 0 {} with
   | none => rfl
   | bad => rfl
   | found r sps tsr => cases tsr <;> rfl
@@ -1048,7 +1048,7 @@ theorem p2_side {p : Bytes} {startPath cm : Nat} (hle : startPath ≤ cm) {b : U
 
 theorem c11 (p cur pre k' nm parent inode startPath cm R b rest) (hp : p.drop cm = b :: rest)
     (hidx : 0 < segEnd SLASH (b :: rest) ∧ segEnd SLASH (b :: rest) < (b :: rest).length)
-    (hres : keyLoop (p.drop (cm + segEnd SLASH (b :: rest))) inode [] inode.key none 0 0 {} = Result.none)
+    (hres : keyLoop false (p.drop (cm + segEnd SLASH (b :: rest))) inode [] inode.key none 0 0 {} = Result.none)
     (ih1 : P1 (p.drop (cm + segEnd SLASH (b :: rest))) inode [] inode.key none 0 0 {})
     (ih2 : P2 p cur pre k' nm parent inode startPath (cm + segEnd SLASH (b :: rest) + 1) R) :
     P2 p cur pre k' nm parent inode startPath cm R := by
@@ -1061,7 +1061,7 @@ theorem c11 (p cur pre k' nm parent inode startPath cm R b rest) (hp : p.drop cm
 theorem c12 (p cur pre k' nm parent inode startPath cm R b rest) (hp : p.drop cm = b :: rest)
     (hidx : 0 < segEnd SLASH (b :: rest) ∧ segEnd SLASH (b :: rest) < (b :: rest).length)
     (r : Route) (sps : Binds)
-    (hres : keyLoop (p.drop (cm + segEnd SLASH (b :: rest))) inode [] inode.key none 0 0 {} = Result.found r sps true)
+    (hres : keyLoop false (p.drop (cm + segEnd SLASH (b :: rest))) inode [] inode.key none 0 0 {} = Result.found r sps true)
     (ih1 : P1 (p.drop (cm + segEnd SLASH (b :: rest))) inode [] inode.key none 0 0 {})
     (ih2 : P2 p cur pre k' nm parent inode startPath (cm + segEnd SLASH (b :: rest) + 1)
       (setTsr R (some r) (R.params ++ [(nm, List.take (cm + segEnd SLASH (b :: rest) - startPath) (List.drop startPath p))] ++ sps))) :
@@ -1077,7 +1077,7 @@ theorem c12 (p cur pre k' nm parent inode startPath cm R b rest) (hp : p.drop cm
 theorem c13 (p cur pre k' nm parent inode startPath cm R b rest) (hp : p.drop cm = b :: rest)
     (hidx : 0 < segEnd SLASH (b :: rest) ∧ segEnd SLASH (b :: rest) < (b :: rest).length)
     (r : Route) (sps : Binds)
-    (hres : keyLoop (p.drop (cm + segEnd SLASH (b :: rest))) inode [] inode.key none 0 0 {} = Result.found r sps false)
+    (hres : keyLoop false (p.drop (cm + segEnd SLASH (b :: rest))) inode [] inode.key none 0 0 {} = Result.found r sps false)
     (ih1 : P1 (p.drop (cm + segEnd SLASH (b :: rest))) inode [] inode.key none 0 0 {}) :
     P2 p cur pre k' nm parent inode startPath cm R := by
   intro hw _ hle hlast hhead
@@ -1085,7 +1085,7 @@ theorem c13 (p cur pre k' nm parent inode startPath cm R b rest) (hp : p.drop cm
 
 theorem c14 (p cur pre k' nm parent inode startPath cm R b rest) (hp : p.drop cm = b :: rest)
     (hidx : 0 < segEnd SLASH (b :: rest) ∧ segEnd SLASH (b :: rest) < (b :: rest).length)
-    (hres : keyLoop (p.drop (cm + segEnd SLASH (b :: rest))) inode [] inode.key none 0 0 {} = Result.bad)
+    (hres : keyLoop false (p.drop (cm + segEnd SLASH (b :: rest))) inode [] inode.key none 0 0 {} = Result.bad)
     (ih1 : P1 (p.drop (cm + segEnd SLASH (b :: rest))) inode [] inode.key none 0 0 {}) :
     P2 p cur pre k' nm parent inode startPath cm R := by
   intro hw _ hle hlast hhead
@@ -1099,39 +1099,54 @@ theorem machine_refines_all :
     (∀ p cur pre k parent cm R, P4 p cur pre k parent cm R) ∧
     (∀ p R, P5 p R) ∧
     (∀ p cur pre parent cm pc b rest R, P6 p cur pre parent cm pc b rest R) := by
-  apply keyLoop.mutual_induct P1 P2 P3 P4 P5 P6
-  · exact fun p cur pre k parent cm pc R hp ih => c01 p cur pre k parent cm pc R hp ih
-  · exact fun p cur pre parent cm pc R b rest hp ih => c02 p cur pre parent cm pc R b rest hp ih
-  · exact fun p cur pre parent cm pc R b rest hp c k' hc ih => c03 p cur pre parent cm pc R b rest hp c k' hc ih
-  · exact fun p cur pre parent cm pc R b rest hp c k' hc ih => c04 p cur pre parent cm pc R b rest hp c k' hc ih
-  · exact fun p cur pre parent cm pc R b rest hp nm k' h0 ih => c05 p cur pre parent cm pc R b rest hp nm k' h0 ih
-  · exact fun p cur pre parent cm pc R b rest hp nm k' h0 ih => c06 p cur pre parent cm pc R b rest hp nm k' h0 ih
-  · exact fun p cur pre parent cm pc R b rest hp nm hcs => c07 p cur pre parent cm pc R b rest hp nm hcs
-  · exact fun p cur pre parent cm pc R b rest hp nm c tail hcs ih => c08 p cur pre parent cm pc R b rest hp nm c tail hcs ih
-  · exact fun p cur pre parent cm pc R b rest hp nm t k'' ih => c09 p cur pre parent cm pc R b rest hp nm t k'' ih
-  · exact fun p cur pre k' nm parent inode startPath cm R hp ih => c10 p cur pre k' nm parent inode startPath cm R hp ih
-  · exact fun p cur pre k' nm parent inode startPath cm R b rest hp hidx hres ih1 ih2 =>
-      c11 p cur pre k' nm parent inode startPath cm R b rest hp hidx hres ih1 ih2
-  · exact fun p cur pre k' nm parent inode startPath cm R b rest hp hidx r sps hres ih1 ih2 =>
-      c12 p cur pre k' nm parent inode startPath cm R b rest hp hidx r sps hres ih1 ih2
-  · exact fun p cur pre k' nm parent inode startPath cm R b rest hp hidx r sps hres ih1 =>
-      c13 p cur pre k' nm parent inode startPath cm R b rest hp hidx r sps hres ih1
-  · exact fun p cur pre k' nm parent inode startPath cm R b rest hp hidx hres ih1 =>
-      c14 p cur pre k' nm parent inode startPath cm R b rest hp hidx hres ih1
-  · exact fun p cur pre k' nm parent inode startPath cm R b rest hp hc ih =>
-      c15 p cur pre k' nm parent inode startPath cm R b rest hp hc ih
-  · exact fun p cur pre nm parent startPath cm R => c16 p cur pre nm parent startPath cm R
-  · exact fun p cur pre k' nm parent startPath cm R hk hh ih => c17 p cur pre k' nm parent startPath cm R hk hh ih
-  · exact fun p cur pre k' nm parent startPath cm R hk hh ih => c18 p cur pre k' nm parent startPath cm R hk hh ih
-  · exact fun p cur pre k parent cm R h => c19 p cur pre k parent cm R h
-  · exact fun p cur pre k parent cm R h ih => c20 p cur pre k parent cm R h ih
-  · exact fun p R h r ps ht => c22 p R h r ps ht
-  · exact fun p R h _ => c21 p R h
-  · exact fun p R f st h ih => c23 p R f st h ih
-  · exact fun p cur pre parent cm pc b rest R hs wc hpc ih => c24 p cur pre parent cm pc b rest R hs wc hpc ih
-  · exact fun p cur pre parent cm pc b rest R hs hpc wc hwc ih => c25 p cur pre parent cm pc b rest R hs hpc wc hwc ih
-  · exact fun p cur pre parent cm pc b rest R hs hpc hwc ih => c26 p cur pre parent cm pc b rest R hs hpc hwc ih
-  · exact fun p cur pre parent cm pc b rest R sc hs ih => c27 p cur pre parent cm pc b rest R sc hs ih
+  have key := keyLoop.mutual_induct
+    (fun lz p cur pre k parent cm pc R => lz = false → P1 p cur pre k parent cm pc R)
+    (fun lz p cur pre k' nm parent inode startPath cm R => lz = false → P2 p cur pre k' nm parent inode startPath cm R)
+    (fun lz p cur pre k' nm parent startPath cm R => lz = false → P3 p cur pre k' nm parent startPath cm R)
+    (fun lz p cur pre k parent cm R => lz = false → P4 p cur pre k parent cm R)
+    (fun lz p R => lz = false → P5 p R)
+    (fun lz p cur pre parent cm pc b rest R => lz = false → P6 p cur pre parent cm pc b rest R)
+  have all := by
+    apply key
+    · intro lz p cur pre k parent cm pc R hp ih hlz; subst hlz; exact c01 p cur pre k parent cm pc R hp (ih rfl)
+    · intro lz p cur pre parent cm pc R b rest hp ih hlz; subst hlz; exact c02 p cur pre parent cm pc R b rest hp (ih rfl)
+    · intro lz p cur pre parent cm pc R b rest hp c k' hc ih hlz; subst hlz; exact c03 p cur pre parent cm pc R b rest hp c k' hc (ih rfl)
+    · intro lz p cur pre parent cm pc R b rest hp c k' hc ih hlz; subst hlz; exact c04 p cur pre parent cm pc R b rest hp c k' hc (ih rfl)
+    · intro lz p cur pre parent cm pc R b rest hp nm k' h0 ih hlz; subst hlz; exact c05 p cur pre parent cm pc R b rest hp nm k' h0 (ih rfl)
+    · intro lz p cur pre parent cm pc R b rest hp nm k' h0 ih hlz; subst hlz; exact c06 p cur pre parent cm pc R b rest hp nm k' h0 (ih rfl)
+    · intro lz p cur pre parent cm pc R b rest hp nm hcs hlz; subst hlz; exact c07 p cur pre parent cm pc R b rest hp nm hcs
+    · intro lz p cur pre parent cm pc R b rest hp nm c tail hcs ih hlz; subst hlz; exact c08 p cur pre parent cm pc R b rest hp nm c tail hcs (ih rfl)
+    · intro lz p cur pre parent cm pc R b rest hp nm t k'' ih hlz; subst hlz; exact c09 p cur pre parent cm pc R b rest hp nm t k'' (ih rfl)
+    · intro lz p cur pre k' nm parent inode startPath cm R hp ih hlz; subst hlz; exact c10 p cur pre k' nm parent inode startPath cm R hp (ih rfl)
+    · intro lz p cur pre k' nm parent inode startPath cm R b rest hp hidx hres ih1 ih2 hlz; subst hlz
+      exact c11 p cur pre k' nm parent inode startPath cm R b rest hp hidx hres (ih1 rfl) (ih2 rfl)
+    · intro lz p cur pre k' nm parent inode startPath cm R b rest hp hidx r sps hres ih1 ih2 hlz; subst hlz
+      exact c12 p cur pre k' nm parent inode startPath cm R b rest hp hidx r sps hres (ih1 rfl) (ih2 rfl)
+    · intro lz p cur pre k' nm parent inode startPath cm R b rest hp hidx r sps hres ih1 hlz; subst hlz
+      exact c13 p cur pre k' nm parent inode startPath cm R b rest hp hidx r sps hres (ih1 rfl)
+    · intro lz p cur pre k' nm parent inode startPath cm R b rest hp hidx hres ih1 hlz; subst hlz
+      exact c14 p cur pre k' nm parent inode startPath cm R b rest hp hidx hres (ih1 rfl)
+    · intro lz p cur pre k' nm parent inode startPath cm R b rest hp hc ih hlz; subst hlz
+      exact c15 p cur pre k' nm parent inode startPath cm R b rest hp hc (ih rfl)
+    · intro lz p cur pre nm parent startPath cm R hlz; exact c16 p cur pre nm parent startPath cm R
+    · intro lz p cur pre k' nm parent startPath cm R hk hh ih hlz; subst hlz; exact c17 p cur pre k' nm parent startPath cm R hk hh (ih rfl)
+    · intro lz p cur pre k' nm parent startPath cm R hk hh ih hlz; subst hlz; exact c18 p cur pre k' nm parent startPath cm R hk hh (ih rfl)
+    · intro lz p cur pre k parent cm R h hlz; exact c19 p cur pre k parent cm R h
+    · intro lz p cur pre k parent cm R h ih hlz; subst hlz; exact c20 p cur pre k parent cm R h (ih rfl)
+    · intro lz p R h r ps ht hlz; exact c22 p R h r ps ht
+    · intro lz p R h _ hlz; exact c21 p R h
+    · intro lz p R f st h ih hlz; subst hlz; exact c23 p R f st h (ih rfl)
+    · intro lz p cur pre parent cm pc b rest R; dsimp only; intro hs wc hpc ih hlz; subst hlz; exact c24 p cur pre parent cm pc b rest R hs wc hpc (ih rfl)
+    · intro lz p cur pre parent cm pc b rest R; dsimp only; intro hs hpc wc hwc ih hlz; subst hlz; exact c25 p cur pre parent cm pc b rest R hs hpc wc hwc (ih rfl)
+    · intro lz p cur pre parent cm pc b rest R; dsimp only; intro hs hpc hwc ih hlz; subst hlz; exact c26 p cur pre parent cm pc b rest R hs hpc hwc (ih rfl)
+    · intro lz p cur pre parent cm pc b rest R; dsimp only; intro sc hs ih hlz; subst hlz; exact c27 p cur pre parent cm pc b rest R sc hs (ih rfl)
+  obtain ⟨h1, h2, h3, h4, h5, h6⟩ := all
+  exact ⟨fun p cur pre k parent cm pc R => h1 false p cur pre k parent cm pc R rfl,
+    fun p cur pre k' nm parent inode startPath cm R => h2 false p cur pre k' nm parent inode startPath cm R rfl,
+    fun p cur pre k' nm parent startPath cm R => h3 false p cur pre k' nm parent startPath cm R rfl,
+    fun p cur pre k parent cm R => h4 false p cur pre k parent cm R rfl,
+    fun p R => h5 false p R rfl,
+    fun p cur pre parent cm pc b rest R => h6 false p cur pre parent cm pc b rest R rfl⟩
 
 /-- **lookupByPath as the Go code runs it = `pick` of the enumerating walk**: on a well-formed node, for every path and
     every initial parameter list, the state machine (skipped-node stack, parameter buffer truncated on backtracking,
